@@ -339,6 +339,18 @@ func vectorQueriesOn(c *ctx, seg segment.Segment, vspec sx.V, ndocs uint64, o ve
 			dims++ // wrong dimension
 		}
 		q := randVec(c, dims)
+		if has && len(vf.L[4].L) > 0 && int(vf.L[1].N) == dims && c.R.Chance(4) {
+			// the query IS one of the indexed vectors, bit for bit (a score of exactly 0 under l2) -
+			// mostly the first vector of the lowest document
+			dv := vf.L[4].L[0]
+			if c.R.Chance(3) {
+				dv = vf.L[4].L[c.R.Intn(len(vf.L[4].L))]
+			}
+			q = make([]float32, len(dv.L[1].L))
+			for i, x := range dv.L[1].L {
+				q[i] = math.Float32frombits(uint32(x.N))
+			}
+		}
 		k := int64(1 + c.R.Intn(6))
 		if c.R.Chance(5) {
 			k = int64(ndocs*3 + 5)
